@@ -64,366 +64,372 @@ def run(ck):
                  "the current event before any callback, and set again after every re-binding of "
                  "the current event; each event is handled in its own context copy", 'M0', 4)
 
-    g = ck.cfg(CTX, 'M0')
-    acq = [w for w in nodes_writing_attr(g, '_fsm_event_active')
-           if is_const(written_value(w, '_fsm_event_active'), True)]
-    ck.need(R1, len(acq) == 1, "_ctx_event: acquire of _fsm_event_active not recognised")
-    state_w = nodes_writing_attr(g, '_state')
-    rt = [r for r in return_nodes(g) if is_const(r.ast.value, True) and g.dominates(acq[0], r)]
+    with ck.section('R03.1'):
+        g = ck.cfg(CTX, 'M0')
+        acq = [w for w in nodes_writing_attr(g, '_fsm_event_active')
+               if is_const(written_value(w, '_fsm_event_active'), True)]
+        ck.need(R1, len(acq) == 1, "_ctx_event: acquire of _fsm_event_active not recognised")
+        state_w = nodes_writing_attr(g, '_state')
+        rt = [r for r in return_nodes(g) if is_const(r.ast.value, True) and g.dominates(acq[0], r)]
 
-    def events(n):
-        ev = []
-        for c in node_calls(n):
-            k = _cb_kind(c)
-            if k == 'exit':
-                ev.append('X')
-            elif k == 'enter':
-                ev.append('N')
-            cn = call_name(c)
-            if cn == '_send_events' and c.args:
-                ev.append('Ox' if is_const(c.args[0], 'on_exit') else
-                          ('On' if is_const(c.args[0], 'on_enter') else 'Ounknown'))
-            elif cn == '_stop_timer':
-                ev.append('T0')
-            elif cn == '_start_timer':
-                ev.append('T1')
-            elif cn == 'calc_output':
-                ev.append('C')
-            elif cn == 'set_output':
-                ev.append('U')
-        if n in state_w:
-            ev.append('S')
-        if n in rt:
-            ev.append('Rt')
-        order = {'X': 0, 'Ox': 1, 'T0': 2, 'S': 3, 'N': 4, 'T1': 5, 'C': 6, 'U': 7, 'On': 8, 'Rt': 9}
-        return sorted(ev, key=lambda s: order.get(s, 99)) if len(ev) > 1 else ev
-    # first iteration: the old state's exit action ran in the prefix (or the FSM was not
-    # initialised); every further iteration is an intermediate state whose exit action must run
-    spec = "( X Ox T0 )? X? S N T1? ( X S N T1? )* C U? On Rt"
-    try:
-        ok, wit, st = check_language(g, spec, events, [g.exit], start=acq[0], prune_tests=True)
-        ck.product_states += st['product_states']
-        ck.ob(R1, f"{CTX} :: action order", ok,
-              "every accepted path performs the actions in the documented order" if ok else
-              f"a path performs the steps {' '.join(wit[1])} -- not in {spec}", ctx, ctx.node,
-              witness=path_witness(g, wit[0]) if wit else None)
-    except Exception as err:
-        ck.ob(R1, f"{CTX} :: action order", False, f"an unexpected step occurs: {err}", ctx, ctx.node)
-    # the old-state actions run only for an initialised FSM
-    first_x = [n for n in nodes_where(g, lambda n: any(_cb_kind(c) == 'exit' for c in node_calls(n)))
-               if not any(l.kind == 'for' and g.dominates(l, n) for l in g.nodes)]
-    ok = bool(first_x) and all(g.has_guard(x, 'self.is_initialized()', True) for x in first_x)
-    ck.ob(R1, f"{CTX} :: old-state actions only when initialised", ok,
-          "exit action / on_exit / timer stop of the old state run iff the FSM is initialised" if ok
-          else "the old state's exit actions are not tied to the FSM being initialised", ctx,
-          first_x[0].ast if first_x else ctx.node)
-    # _send_events reads state and output at call time
-    se = fsm.methods.get('_send_events')
-    ck.need(R1, se is not None, "FSM._send_events not found")
-    gs = ck.cfg(se.fid, 'MK')
-    sends = nodes_calling(gs, 'send')
-    ok = len(sends) == 1
-    if ok:
-        c = node_calls(sends[0], 'send')[0]
-        kws = {k.arg: k.value for k in c.keywords}
-        ok = [norm(a) for a in c.args] == ['self'] and set(kws) == {'sdata', 'trigger', 'state', 'value'} \
-            and norm(kws['value']) == 'self._output' and \
-            expr_is(ck, se.fid, 'MK', sends[0], kws['state'], 'self._state') and \
-            expr_is(ck, se.fid, 'MK', sends[0], kws['trigger'],
-                    ("trigger_type.removeprefix('on_')", "trigger_type[3:]"))
-        loops = [n for n in gs.nodes if n.kind == 'for' and gs.dominates(n, sends[0])]
-        tbl = nodes_where(gs, lambda n: n.ast is not None and any(
-            norm(x) == 'self._state_events[trigger_type]' for x in walk_shallow(n.ast)),
-            kinds=('stmt', 'test', 'for'))
-        ok = ok and len(loops) == 1 and bool(tbl)
-    ck.ob(R1, se.fid, ok, "state events carry the state and output current at call time "
-          "(so on_exit sees the old, on_enter the new ones), trigger without the 'on_' prefix"
-          if ok else "_send_events does not send (self, sdata=, trigger=, state=self._state, "
-          "value=self._output) for the events of the current state", se, se.node)
+        def events(n):
+            ev = []
+            for c in node_calls(n):
+                k = _cb_kind(c)
+                if k == 'exit':
+                    ev.append('X')
+                elif k == 'enter':
+                    ev.append('N')
+                cn = call_name(c)
+                if cn == '_send_events' and c.args:
+                    ev.append('Ox' if is_const(c.args[0], 'on_exit') else
+                              ('On' if is_const(c.args[0], 'on_enter') else 'Ounknown'))
+                elif cn == '_stop_timer':
+                    ev.append('T0')
+                elif cn == '_start_timer':
+                    ev.append('T1')
+                elif cn == 'calc_output':
+                    ev.append('C')
+                elif cn == 'set_output':
+                    ev.append('U')
+            if n in state_w:
+                ev.append('S')
+            if n in rt:
+                ev.append('Rt')
+            order = {'X': 0, 'Ox': 1, 'T0': 2, 'S': 3, 'N': 4, 'T1': 5, 'C': 6, 'U': 7, 'On': 8, 'Rt': 9}
+            return sorted(ev, key=lambda s: order.get(s, 99)) if len(ev) > 1 else ev
+        # first iteration: the old state's exit action ran in the prefix (or the FSM was not
+        # initialised); every further iteration is an intermediate state whose exit action must run
+        spec = "( X Ox T0 )? X? S N T1? ( X S N T1? )* C U? On Rt"
+        try:
+            ok, wit, st = check_language(g, spec, events, [g.exit], start=acq[0], prune_tests=True)
+            ck.product_states += st['product_states']
+            ck.ob(R1, f"{CTX} :: action order", ok,
+                  "every accepted path performs the actions in the documented order" if ok else
+                  f"a path performs the steps {' '.join(wit[1])} -- not in {spec}", ctx, ctx.node,
+                  witness=path_witness(g, wit[0]) if wit else None)
+        except Exception as err:
+            ck.ob(R1, f"{CTX} :: action order", False, f"an unexpected step occurs: {err}", ctx, ctx.node)
+        # the old-state actions run only for an initialised FSM
+        first_x = [n for n in nodes_where(g, lambda n: any(_cb_kind(c) == 'exit' for c in node_calls(n)))
+                   if not any(l.kind == 'for' and g.dominates(l, n) for l in g.nodes)]
+        ok = bool(first_x) and all(g.has_guard(x, 'self.is_initialized()', True) for x in first_x)
+        ck.ob(R1, f"{CTX} :: old-state actions only when initialised", ok,
+              "exit action / on_exit / timer stop of the old state run iff the FSM is initialised" if ok
+              else "the old state's exit actions are not tied to the FSM being initialised", ctx,
+              first_x[0].ast if first_x else ctx.node)
+        # _send_events reads state and output at call time
+        se = fsm.methods.get('_send_events')
+        ck.need(R1, se is not None, "FSM._send_events not found")
+        gs = ck.cfg(se.fid, 'MK')
+        sends = nodes_calling(gs, 'send')
+        ok = len(sends) == 1
+        if ok:
+            c = node_calls(sends[0], 'send')[0]
+            kws = {k.arg: k.value for k in c.keywords}
+            ok = [norm(a) for a in c.args] == ['self'] and set(kws) == {'sdata', 'trigger', 'state', 'value'} \
+                and norm(kws['value']) == 'self._output' and \
+                expr_is(ck, se.fid, 'MK', sends[0], kws['state'], 'self._state') and \
+                expr_is(ck, se.fid, 'MK', sends[0], kws['trigger'],
+                        ("trigger_type.removeprefix('on_')", "trigger_type[3:]"))
+            loops = [n for n in gs.nodes if n.kind == 'for' and gs.dominates(n, sends[0])]
+            tbl = nodes_where(gs, lambda n: n.ast is not None and any(
+                norm(x) == 'self._state_events[trigger_type]' for x in walk_shallow(n.ast)),
+                kinds=('stmt', 'test', 'for'))
+            ok = ok and len(loops) == 1 and bool(tbl)
+        ck.ob(R1, se.fid, ok, "state events carry the state and output current at call time "
+              "(so on_exit sees the old, on_enter the new ones), trigger without the 'on_' prefix"
+              if ok else "_send_events does not send (self, sdata=, trigger=, state=self._state, "
+              "value=self._output) for the events of the current state", se, se.node)
 
-    # ------------------------------------------------------------------ R03.2
-    rf = [r for r in return_nodes(g) if is_const(r.ast.value, False)]
-    others = [r for r in return_nodes(g) if r not in rf and not is_const(r.ast.value, True)]
-    ck.ob(R2, f"{CTX} :: return values", bool(rf) and not others,
-          "returns the literals True / False only" if rf and not others else
-          f"returns {[norm(r.ast.value) for r in others]}", ctx, ctx.node)
-    forbidden = effect_nodes(
-        g, attrs_written=('_state', '_next_event', '_active_timer', 'sdata', '_fsm_event_active'),
-        calls=('_send_events', '_stop_timer', '_start_timer', '_set_timer', 'set_output'),
-        pred=lambda n: any(_cb_kind(c) in ('exit', 'enter') for c in node_calls(n)))
-    effect_free_to(ck, R2, f"{CTX} :: return False is effect-free", ctx, g, rf, forbidden,
-                   "a rejected event changes nothing")
-    notrans = nodes_where(g, lambda n: any(call_name(c) == 'send' for c in node_calls(n)))
-    ok = len(notrans) == 1
-    if ok:
-        c = node_calls(notrans[0], 'send')[0]
-        kws = {k.arg: norm(k.value) for k in c.keywords}
-        loops = [n for n in g.nodes if n.kind == 'for' and g.dominates(n, notrans[0])]
-        ok = kws == {'trigger': "'notrans'", 'event': 'etype', 'state': 'self._state'} and \
-            [norm(a) for a in c.args] == ['self'] and len(loops) == 1 and \
-            norm(loops[0].ast.iter) == 'self._on_notrans' and \
-            g.has_guard(notrans[0], 'newstate is None', True)
-    ck.ob(R2, f"{CTX} :: on_notrans", ok,
-          "on_notrans events (trigger='notrans', event=, state=) are sent exactly when no "
-          "transition is defined" if ok else
-          "on_notrans is not sent exactly on the no-transition exit with the documented items",
-          ctx, notrans[0].ast if notrans else ctx.node)
-    cond_rej = [r for r in rf if g.has_guard(r, 'newstate is None', False)]
-    bad = [r for r in cond_rej if any(r.id in g.reachable_from(s) for s in notrans)]
-    ck.ob(R2, f"{CTX} :: condition exit is silent", bool(cond_rej) and not bad,
-          "a transition vetoed by a condition sends nothing" if cond_rej and not bad else
-          "the condition-rejected exit also sends on_notrans (or does not exist)", ctx,
-          cond_rej[0].ast if cond_rej else ctx.node)
+    with ck.section('R03.2'):
+        # ------------------------------------------------------------------ R03.2
+        rf = [r for r in return_nodes(g) if is_const(r.ast.value, False)]
+        others = [r for r in return_nodes(g) if r not in rf and not is_const(r.ast.value, True)]
+        ck.ob(R2, f"{CTX} :: return values", bool(rf) and not others,
+              "returns the literals True / False only" if rf and not others else
+              f"returns {[norm(r.ast.value) for r in others]}", ctx, ctx.node)
+        forbidden = effect_nodes(
+            g, attrs_written=('_state', '_next_event', '_active_timer', 'sdata', '_fsm_event_active'),
+            calls=('_send_events', '_stop_timer', '_start_timer', '_set_timer', 'set_output'),
+            pred=lambda n: any(_cb_kind(c) in ('exit', 'enter') for c in node_calls(n)))
+        effect_free_to(ck, R2, f"{CTX} :: return False is effect-free", ctx, g, rf, forbidden,
+                       "a rejected event changes nothing")
+        notrans = nodes_where(g, lambda n: any(call_name(c) == 'send' for c in node_calls(n)))
+        ok = len(notrans) == 1
+        if ok:
+            c = node_calls(notrans[0], 'send')[0]
+            kws = {k.arg: norm(k.value) for k in c.keywords}
+            loops = [n for n in g.nodes if n.kind == 'for' and g.dominates(n, notrans[0])]
+            ok = kws == {'trigger': "'notrans'", 'event': 'etype', 'state': 'self._state'} and \
+                [norm(a) for a in c.args] == ['self'] and len(loops) == 1 and \
+                norm(loops[0].ast.iter) == 'self._on_notrans' and \
+                g.has_guard(notrans[0], 'newstate is None', True)
+        ck.ob(R2, f"{CTX} :: on_notrans", ok,
+              "on_notrans events (trigger='notrans', event=, state=) are sent exactly when no "
+              "transition is defined" if ok else
+              "on_notrans is not sent exactly on the no-transition exit with the documented items",
+              ctx, notrans[0].ast if notrans else ctx.node)
+        cond_rej = [r for r in rf if g.has_guard(r, 'newstate is None', False)]
+        bad = [r for r in cond_rej if any(r.id in g.reachable_from(s) for s in notrans)]
+        ck.ob(R2, f"{CTX} :: condition exit is silent", bool(cond_rej) and not bad,
+              "a transition vetoed by a condition sends nothing" if cond_rej and not bad else
+              "the condition-rejected exit also sends on_notrans (or does not exist)", ctx,
+              cond_rej[0].ast if cond_rej else ctx.node)
 
-    # ------------------------------------------------------------------ R03.3
-    gk = ck.cfg(CTX, 'MK')
+    with ck.section('R03.3'):
+        # ------------------------------------------------------------------ R03.3
+        gk = ck.cfg(CTX, 'MK')
 
-    def lookup_nodes(keytext):
-        res = []
-        for n in nodes_where(gk, lambda n: True):
-            for r in node_roots(n):
-                for x in walk_shallow(r):
-                    if isinstance(x, ast.Subscript) and norm(x.value) == 'self._ct_transition' \
-                            and norm(x.slice) == keytext:
-                        res.append(n)
-                    if isinstance(x, ast.Call) and call_name(x) == 'get' and \
-                            recv(x) == 'self._ct_transition' and x.args and \
-                            norm(x.args[0]) == keytext:
-                        res.append(n)
-        return res
-    KEY = '(etype, self._state)'
-    spec_l = [n for n in lookup_nodes(KEY) if n.kind == 'stmt']
-    any_l = [n for n in lookup_nodes('(etype, None)') if n.kind == 'stmt']
-    ok = len(spec_l) == 1 and len(any_l) == 1
-    wit = None
-    if ok:
-        a, b = spec_l[0], any_l[0]
-        # miss markers: the KeyError handler fed by the specific look-up, or the false outcome
-        # of `KEY in table`
-        markers = []
-        for v, lab in gk.succ[a.id]:
-            if lab == 'exc':
-                for h, hl in gk.succ[v]:
-                    if gk.nodes[h].kind == 'handler' and 'KeyError' in norm(gk.nodes[h].ast.type):
-                        markers.append(gk.nodes[h])
-        for n in gk.nodes:
-            if n.kind == 'branch' and gk.has_guard(gk.nodes[[v for v, _ in gk.succ[n.id]][0]]
-                                                   if gk.succ[n.id] else n,
-                                                   f'{KEY} in self._ct_transition', False):
-                if norm(n.test.ast).replace('not ', '').strip('()') .startswith(KEY) or \
-                        f'{KEY} in self._ct_transition' in norm(n.test.ast) or \
-                        f'{KEY} not in self._ct_transition' in norm(n.test.ast):
-                    markers.append(n)
-        wit = gk.path_avoiding(gk.entry, [b], avoid=markers) if markers else gk.path_avoiding(gk.entry, [b])
-        normal_succ = [gk.nodes[v] for v, lab in gk.succ[a.id] if lab != 'exc']
-        hit_reach = set()
-        for s_ in normal_succ:
-            hit_reach |= gk.reachable_from(s_)
-        ok = wit is None and bool(markers) and b.id not in hit_reach
-        # both bind the variable that is tested afterwards
-        ok = ok and isinstance(a.ast, ast.Assign) and isinstance(b.ast, ast.Assign) and \
-            norm(a.ast.targets[0]) == norm(b.ast.targets[0]) == 'newstate'
-    ck.ob(R3, f"{CTX} :: specific rule beats any-state rule", ok,
-          "the (event, None) rule is consulted only when no (event, current state) rule exists"
-          if ok else "the any-state rule is consulted first, or also after a successful "
-          "specific-state look-up", ctx, any_l[0].ast if any_l else ctx.node,
-          witness=path_witness(gk, wit))
-    # both results bind the same variable that is tested for None
-    nn = [r for r in return_nodes(g) if is_const(r.ast.value, False) and
-          g.has_guard(r, 'newstate is None', True)]
-    ck.ob(R3, f"{CTX} :: None target rejects", bool(nn),
-          "a missing rule or a None target returns False" if nn else
-          "a None target / missing rule does not reject the event", ctx, ctx.node)
-    bypass = nodes_where(g, lambda n: any(
-        (isinstance(x, ast.Attribute) and x.attr == '_ct_transition') or
-        (isinstance(x, ast.Call) and _cb_kind(x) == 'cond')
-        for r in node_roots(n) for x in walk_shallow(r)))
-    ok = bool(bypass) and all(g.has_guard(n, 'isinstance(etype, Goto)', False) for n in bypass)
-    ck.ob(R3, f"{CTX} :: Goto bypasses the table", ok,
-          "table look-ups and conditions happen only for non-Goto events" if ok else
-          "a Goto event consults the transition table or a condition", ctx,
-          bypass[0].ast if bypass else ctx.node)
-    gt = nodes_where(g, lambda n: isinstance(n.ast, ast.Assign) and norm(n.ast.value) == 'etype.state'
-                     and g.has_guard(n, 'isinstance(etype, Goto)', True))
-    chk = [n for n in nodes_calling(g, '_check_state') if g.has_guard(n, 'isinstance(etype, Goto)', True)]
-    ck.ob(R3, f"{CTX} :: Goto target", bool(gt) and bool(chk),
-          "the Goto target becomes the new state after a validity check" if gt and chk else
-          "the Goto target is not used (or not validated) as the new state", ctx, ctx.node)
+        def lookup_nodes(keytext):
+            res = []
+            for n in nodes_where(gk, lambda n: True):
+                for r in node_roots(n):
+                    for x in walk_shallow(r):
+                        if isinstance(x, ast.Subscript) and norm(x.value) == 'self._ct_transition' \
+                                and norm(x.slice) == keytext:
+                            res.append(n)
+                        if isinstance(x, ast.Call) and call_name(x) == 'get' and \
+                                recv(x) == 'self._ct_transition' and x.args and \
+                                norm(x.args[0]) == keytext:
+                            res.append(n)
+            return res
+        KEY = '(etype, self._state)'
+        spec_l = [n for n in lookup_nodes(KEY) if n.kind == 'stmt']
+        any_l = [n for n in lookup_nodes('(etype, None)') if n.kind == 'stmt']
+        ok = len(spec_l) == 1 and len(any_l) == 1
+        wit = None
+        if ok:
+            a, b = spec_l[0], any_l[0]
+            # miss markers: the KeyError handler fed by the specific look-up, or the false outcome
+            # of `KEY in table`
+            markers = []
+            for v, lab in gk.succ[a.id]:
+                if lab == 'exc':
+                    for h, hl in gk.succ[v]:
+                        if gk.nodes[h].kind == 'handler' and 'KeyError' in norm(gk.nodes[h].ast.type):
+                            markers.append(gk.nodes[h])
+            for n in gk.nodes:
+                if n.kind == 'branch' and gk.has_guard(gk.nodes[[v for v, _ in gk.succ[n.id]][0]]
+                                                       if gk.succ[n.id] else n,
+                                                       f'{KEY} in self._ct_transition', False):
+                    if norm(n.test.ast).replace('not ', '').strip('()') .startswith(KEY) or \
+                            f'{KEY} in self._ct_transition' in norm(n.test.ast) or \
+                            f'{KEY} not in self._ct_transition' in norm(n.test.ast):
+                        markers.append(n)
+            wit = gk.path_avoiding(gk.entry, [b], avoid=markers) if markers else gk.path_avoiding(gk.entry, [b])
+            normal_succ = [gk.nodes[v] for v, lab in gk.succ[a.id] if lab != 'exc']
+            hit_reach = set()
+            for s_ in normal_succ:
+                hit_reach |= gk.reachable_from(s_)
+            ok = wit is None and bool(markers) and b.id not in hit_reach
+            # both bind the variable that is tested afterwards
+            ok = ok and isinstance(a.ast, ast.Assign) and isinstance(b.ast, ast.Assign) and \
+                norm(a.ast.targets[0]) == norm(b.ast.targets[0]) == 'newstate'
+        ck.ob(R3, f"{CTX} :: specific rule beats any-state rule", ok,
+              "the (event, None) rule is consulted only when no (event, current state) rule exists"
+              if ok else "the any-state rule is consulted first, or also after a successful "
+              "specific-state look-up", ctx, any_l[0].ast if any_l else ctx.node,
+              witness=path_witness(gk, wit))
+        # both results bind the same variable that is tested for None
+        nn = [r for r in return_nodes(g) if is_const(r.ast.value, False) and
+              g.has_guard(r, 'newstate is None', True)]
+        ck.ob(R3, f"{CTX} :: None target rejects", bool(nn),
+              "a missing rule or a None target returns False" if nn else
+              "a None target / missing rule does not reject the event", ctx, ctx.node)
+        bypass = nodes_where(g, lambda n: any(
+            (isinstance(x, ast.Attribute) and x.attr == '_ct_transition') or
+            (isinstance(x, ast.Call) and _cb_kind(x) == 'cond')
+            for r in node_roots(n) for x in walk_shallow(r)))
+        ok = bool(bypass) and all(g.has_guard(n, 'isinstance(etype, Goto)', False) for n in bypass)
+        ck.ob(R3, f"{CTX} :: Goto bypasses the table", ok,
+              "table look-ups and conditions happen only for non-Goto events" if ok else
+              "a Goto event consults the transition table or a condition", ctx,
+              bypass[0].ast if bypass else ctx.node)
+        gt = nodes_where(g, lambda n: isinstance(n.ast, ast.Assign) and norm(n.ast.value) == 'etype.state'
+                         and g.has_guard(n, 'isinstance(etype, Goto)', True))
+        chk = [n for n in nodes_calling(g, '_check_state') if g.has_guard(n, 'isinstance(etype, Goto)', True)]
+        ck.ob(R3, f"{CTX} :: Goto target", bool(gt) and bool(chk),
+              "the Goto target becomes the new state after a validity check" if gt and chk else
+              "the Goto target is not used (or not validated) as the new state", ctx, ctx.node)
 
-    # ------------------------------------------------------------------ R03.4
-    cond_nodes = nodes_where(g, lambda n: any(_cb_kind(c) == 'cond' for c in node_calls(n)))
-    ck.need(R4, len(cond_nodes) == 1, "_ctx_event: the cond call site was not recognised")
-    cn = cond_nodes[0]
-    cc = [c for c in node_calls(cn) if _cb_kind(c) == 'cond'][0]
-    ok = g.has_fact(cn, 'self.is_initialized()', True, sub=cc)
-    ck.ob(R4, f"{CTX} :: conditions only when initialised", ok,
-          "cond_EVENT is evaluated only for an initialised FSM" if ok else
-          "conditions are consulted for an uninitialised FSM", ctx, cn.ast)
-    ok = g.has_fact(cn, 'etype in self._ct_events', True, sub=cc) and \
-        g.has_fact(cn, 'newstate is None', False, sub=cc)
-    ck.ob(R4, f"{CTX} :: conditions only for known events with a transition", ok,
-          "no condition is consulted for unknown events or when no transition exists" if ok else
-          "a condition is consulted before the event/transition is known to exist", ctx, cn.ast)
-    wrapped = [x for r in node_roots(cn) for x in walk_shallow(r)
-               if isinstance(x, ast.Call) and call_name(x) == 'all' and x.args and x.args[0] is cc]
-    arg_ok = len(cc.args) == 2 and norm(cc.args[1]) == 'etype'
-    # rejection when not all(...)
-    rej = [r for r in rf if g.has_guard(r, norm(wrapped[0]) if wrapped else 'False', False) or
-           any(norm(wrapped[0]) in t for t, p in g.guard_texts(r))] if wrapped else []
-    ck.ob(R4, f"{CTX} :: all conditions must hold", bool(wrapped) and arg_ok and bool(rej),
-          "the event is rejected unless all(cond results) -- for the event's own name" if wrapped
-          and arg_ok and rej else "the condition results are not combined with all() for this "
-          "event (any()/first-only/other name)", ctx, cn.ast)
-    rc = fsm.methods.get('_run_cb')
-    ck.need(R4, rc is not None, "FSM._run_cb not found")
-    gr = ck.cfg(rc.fid, 'MK')
-    apps = nodes_where(gr, lambda n: any(call_name(c) == 'append' for c in node_calls(n)))
-    srcs = set()
-    for a in apps:
-        c = node_calls(a, 'append')[0]
-        inner = c.args[0] if c.args else None
-        if isinstance(inner, ast.Call):
-            srcs.add(norm(inner))
-    tabs = {norm(n.ast.value) for n in gr.nodes if n.kind == 'stmt' and isinstance(n.ast, ast.Assign)
-            and isinstance(n.ast.value, ast.Subscript) and norm(n.ast.value.slice) == 'cb_type'}
-    idx = [n for n in gr.nodes if n.kind == 'stmt' and isinstance(n.ast, ast.Assign)
-           and isinstance(n.ast.value, ast.Subscript) and norm(n.ast.value.slice) == 'name']
-    rets = return_nodes(gr)
-    # the two appended calls: <f>() and <g>(self), f and g taken from the two tables by `name`
-    shapes_ = set()
-    rdr = ck.rdefs(rc.fid, 'MK')
-    for a in apps:
-        c = node_calls(a, 'append')[0]
-        inner = c.args[0] if c.args else None
-        if isinstance(inner, ast.Call) and isinstance(inner.func, ast.Name):
-            vals_ = rdr.value_exprs(a, inner.func.id)
-            from_tab = bool(vals_) and all(not isinstance(v_, str) and isinstance(v_, ast.Subscript)
-                                           and norm(v_.slice) == 'name' for v_ in vals_)
-            shapes_.add((tuple(norm(x) for x in inner.args), from_tab))
-        elif isinstance(inner, ast.Call) and isinstance(inner.func, ast.Subscript):
-            shapes_.add((tuple(norm(x) for x in inner.args), norm(inner.func.slice) == 'name'))
-    acc = {norm(node_calls(a, 'append')[0].func.value) for a in apps}
-    ok = len(apps) == 2 and shapes_ == {((), True), (('self',), True)} and \
-        tabs == {'self._fsm_functions[cb_type]', 'self._ct_methods[cb_type]'} and \
-        len(acc) == 1 and all(norm(r.ast.value) in acc for r in rets) and bool(rets)
-    # neither call is skipped because the other exists
-    if ok:
+    with ck.section('R03.4'):
+        # ------------------------------------------------------------------ R03.4
+        cond_nodes = nodes_where(g, lambda n: any(_cb_kind(c) == 'cond' for c in node_calls(n)))
+        ck.need(R4, len(cond_nodes) == 1, "_ctx_event: the cond call site was not recognised")
+        cn = cond_nodes[0]
+        cc = [c for c in node_calls(cn) if _cb_kind(c) == 'cond'][0]
+        ok = g.has_fact(cn, 'self.is_initialized()', True, sub=cc)
+        ck.ob(R4, f"{CTX} :: conditions only when initialised", ok,
+              "cond_EVENT is evaluated only for an initialised FSM" if ok else
+              "conditions are consulted for an uninitialised FSM", ctx, cn.ast)
+        ok = g.has_fact(cn, 'etype in self._ct_events', True, sub=cc) and \
+            g.has_fact(cn, 'newstate is None', False, sub=cc)
+        ck.ob(R4, f"{CTX} :: conditions only for known events with a transition", ok,
+              "no condition is consulted for unknown events or when no transition exists" if ok else
+              "a condition is consulted before the event/transition is known to exist", ctx, cn.ast)
+        wrapped = [x for r in node_roots(cn) for x in walk_shallow(r)
+                   if isinstance(x, ast.Call) and call_name(x) == 'all' and x.args and x.args[0] is cc]
+        arg_ok = len(cc.args) == 2 and norm(cc.args[1]) == 'etype'
+        # rejection when not all(...)
+        rej = [r for r in rf if g.has_guard(r, norm(wrapped[0]) if wrapped else 'False', False) or
+               any(norm(wrapped[0]) in t for t, p in g.guard_texts(r))] if wrapped else []
+        ck.ob(R4, f"{CTX} :: all conditions must hold", bool(wrapped) and arg_ok and bool(rej),
+              "the event is rejected unless all(cond results) -- for the event's own name" if wrapped
+              and arg_ok and rej else "the condition results are not combined with all() for this "
+              "event (any()/first-only/other name)", ctx, cn.ast)
+        rc = fsm.methods.get('_run_cb')
+        ck.need(R4, rc is not None, "FSM._run_cb not found")
+        gr = ck.cfg(rc.fid, 'MK')
+        apps = nodes_where(gr, lambda n: any(call_name(c) == 'append' for c in node_calls(n)))
+        srcs = set()
         for a in apps:
-            other = [x for x in apps if x is not a][0]
-            ok = ok and gr.path_avoiding(gr.entry, [a], avoid=[other]) is not None or \
-                gr.dominates(other, a)
-        # the second is reachable whether or not the first table had an entry
-        first, second = sorted(apps, key=lambda n: n.id)
-        ok = ok and gr.path_avoiding(gr.entry, [second], avoid=[first]) is not None and \
-            second.id in gr.reachable_from(first)
-    ck.ob(R4, rc.fid, ok, "the instance callback and the class method of the same (type, name) "
-          "are both called (the method with self) and every result is returned" if ok else
-          "_run_cb does not call both the instance callback and the class method for the same "
-          "name, or drops a result", rc, rc.node)
+            c = node_calls(a, 'append')[0]
+            inner = c.args[0] if c.args else None
+            if isinstance(inner, ast.Call):
+                srcs.add(norm(inner))
+        tabs = {norm(n.ast.value) for n in gr.nodes if n.kind == 'stmt' and isinstance(n.ast, ast.Assign)
+                and isinstance(n.ast.value, ast.Subscript) and norm(n.ast.value.slice) == 'cb_type'}
+        idx = [n for n in gr.nodes if n.kind == 'stmt' and isinstance(n.ast, ast.Assign)
+               and isinstance(n.ast.value, ast.Subscript) and norm(n.ast.value.slice) == 'name']
+        rets = return_nodes(gr)
+        # the two appended calls: <f>() and <g>(self), f and g taken from the two tables by `name`
+        shapes_ = set()
+        rdr = ck.rdefs(rc.fid, 'MK')
+        for a in apps:
+            c = node_calls(a, 'append')[0]
+            inner = c.args[0] if c.args else None
+            if isinstance(inner, ast.Call) and isinstance(inner.func, ast.Name):
+                vals_ = rdr.value_exprs(a, inner.func.id)
+                from_tab = bool(vals_) and all(not isinstance(v_, str) and isinstance(v_, ast.Subscript)
+                                               and norm(v_.slice) == 'name' for v_ in vals_)
+                shapes_.add((tuple(norm(x) for x in inner.args), from_tab))
+            elif isinstance(inner, ast.Call) and isinstance(inner.func, ast.Subscript):
+                shapes_.add((tuple(norm(x) for x in inner.args), norm(inner.func.slice) == 'name'))
+        acc = {norm(node_calls(a, 'append')[0].func.value) for a in apps}
+        ok = len(apps) == 2 and shapes_ == {((), True), (('self',), True)} and \
+            tabs == {'self._fsm_functions[cb_type]', 'self._ct_methods[cb_type]'} and \
+            len(acc) == 1 and all(norm(r.ast.value) in acc for r in rets) and bool(rets)
+        # neither call is skipped because the other exists
+        if ok:
+            for a in apps:
+                other = [x for x in apps if x is not a][0]
+                ok = ok and gr.path_avoiding(gr.entry, [a], avoid=[other]) is not None or \
+                    gr.dominates(other, a)
+            # the second is reachable whether or not the first table had an entry
+            first, second = sorted(apps, key=lambda n: n.id)
+            ok = ok and gr.path_avoiding(gr.entry, [second], avoid=[first]) is not None and \
+                second.id in gr.reachable_from(first)
+        ck.ob(R4, rc.fid, ok, "the instance callback and the class method of the same (type, name) "
+              "are both called (the method with self) and every result is returned" if ok else
+              "_run_cb does not call both the instance callback and the class method for the same "
+              "name, or drops a result", rc, rc.node)
 
-    # ------------------------------------------------------------------ R03.5
-    init = fsm.methods['__init__']
-    own(ck, R5, '_next_event', {init.fid: 'None', CTX: 'slot written / taken'})
-    loops = [n for n in g.nodes if n.kind == 'for' and g.dominates(acq[0], n)
-             and isinstance(n.ast.iter, ast.Call) and call_name(n.ast.iter) == 'range']
-    ok = len(loops) == 1 and norm(loops[0].ast.iter.args[0]) == 'self._ct_chainlimit' and \
-        bool(loops[0].ast.orelse) and any(isinstance(s, ast.Raise) for s in loops[0].ast.orelse)
-    whiles = [n for n in g.nodes if n.kind == 'test' and isinstance(n.stmt, ast.While)]
-    ck.ob(R5, f"{CTX} :: bounded chain loop", ok and not whiles,
-          "for _ in range(self._ct_chainlimit) ... else: raise" if ok and not whiles else
-          "the chain loop is not a bounded for-range with a raising else (endless chains would "
-          "hang)", ctx, loops[0].ast if loops else ctx.node)
-    bt = fsm.methods.get('_build_tables')
-    lim = [x for x in own_nodes(bt.node) if isinstance(x, ast.Assign) and
-           norm(x.targets[0]) == 'cls._ct_chainlimit'] if bt else []
-    ok = len(lim) == 1 and 'len(cls._ct_states)' in norm(lim[0].value)
-    if ok:
-        v = lim[0].value
-        ok = isinstance(v, ast.BinOp) and isinstance(v.op, ast.Mult) and any(
-            isinstance(s, ast.Constant) and isinstance(s.value, int) and s.value >= 1
-            for s in (v.left, v.right))
-    ck.ob(R5, "fsm:FSM._build_tables :: chain limit", ok,
-          f"_ct_chainlimit = {norm(lim[0].value) if lim else None} (finite, grows with the "
-          f"number of states)" if ok else "the chain limit is not a finite multiple of the number "
-          "of states", bt, lim[0] if lim else (bt.node if bt else None))
-    take = nodes_where(g, lambda n: isinstance(n.ast, ast.Assign) and
-                       norm(n.ast.value) == 'self._next_event' and isinstance(n.ast.targets[0], ast.Tuple))
-    clr = [w for w in nodes_writing_attr(g, '_next_event') if is_const(written_value(w, '_next_event'), None)]
-    ok = len(take) == 1 and bool(clr) and all(g.dominates(take[0], c) for c in clr) and \
-        [norm(e) for e in take[0].ast.targets[0].elts] == ['etype', 'data', 'newstate']
-    ck.ob(R5, f"{CTX} :: slot taken and cleared", ok,
-          "the chained request is unpacked into (etype, data, newstate) and the slot is cleared"
-          if ok else "the chained request is not taken over completely or the slot is not cleared",
-          ctx, take[0].ast if take else ctx.node)
+    with ck.section('R03.5'):
+        # ------------------------------------------------------------------ R03.5
+        init = fsm.methods['__init__']
+        own(ck, R5, '_next_event', {init.fid: 'None', CTX: 'slot written / taken'})
+        loops = [n for n in g.nodes if n.kind == 'for' and g.dominates(acq[0], n)
+                 and isinstance(n.ast.iter, ast.Call) and call_name(n.ast.iter) == 'range']
+        ok = len(loops) == 1 and norm(loops[0].ast.iter.args[0]) == 'self._ct_chainlimit' and \
+            bool(loops[0].ast.orelse) and any(isinstance(s, ast.Raise) for s in loops[0].ast.orelse)
+        whiles = [n for n in g.nodes if n.kind == 'test' and isinstance(n.stmt, ast.While)]
+        ck.ob(R5, f"{CTX} :: bounded chain loop", ok and not whiles,
+              "for _ in range(self._ct_chainlimit) ... else: raise" if ok and not whiles else
+              "the chain loop is not a bounded for-range with a raising else (endless chains would "
+              "hang)", ctx, loops[0].ast if loops else ctx.node)
+        bt = fsm.methods.get('_build_tables')
+        lim = [x for x in own_nodes(bt.node) if isinstance(x, ast.Assign) and
+               norm(x.targets[0]) == 'cls._ct_chainlimit'] if bt else []
+        ok = len(lim) == 1 and 'len(cls._ct_states)' in norm(lim[0].value)
+        if ok:
+            v = lim[0].value
+            ok = isinstance(v, ast.BinOp) and isinstance(v.op, ast.Mult) and any(
+                isinstance(s, ast.Constant) and isinstance(s.value, int) and s.value >= 1
+                for s in (v.left, v.right))
+        ck.ob(R5, "fsm:FSM._build_tables :: chain limit", ok,
+              f"_ct_chainlimit = {norm(lim[0].value) if lim else None} (finite, grows with the "
+              f"number of states)" if ok else "the chain limit is not a finite multiple of the number "
+              "of states", bt, lim[0] if lim else (bt.node if bt else None))
+        take = nodes_where(g, lambda n: isinstance(n.ast, ast.Assign) and
+                           norm(n.ast.value) == 'self._next_event' and isinstance(n.ast.targets[0], ast.Tuple))
+        clr = [w for w in nodes_writing_attr(g, '_next_event') if is_const(written_value(w, '_next_event'), None)]
+        ok = len(take) == 1 and bool(clr) and all(g.dominates(take[0], c) for c in clr) and \
+            [norm(e) for e in take[0].ast.targets[0].elts] == ['etype', 'data', 'newstate']
+        ck.ob(R5, f"{CTX} :: slot taken and cleared", ok,
+              "the chained request is unpacked into (etype, data, newstate) and the slot is cleared"
+              if ok else "the chained request is not taken over completely or the slot is not cleared",
+              ctx, take[0].ast if take else ctx.node)
 
-    # ------------------------------------------------------------------ R03.6
-    sets = nodes_where(g, lambda n: any(call_name(c) == 'set' and recv(c) == 'fsm_event_data'
-                                        for c in node_calls(n)))
-    rebinds = nodes_where(g, lambda n: n.kind == 'stmt' and isinstance(n.ast, ast.Assign) and
-                          any('data' == x.id for t in n.ast.targets for x in walk_shallow(t)
-                              if isinstance(x, ast.Name)))
-    cbs = nodes_where(g, lambda n: any(call_name(c) == '_run_cb' for c in node_calls(n)))
+    with ck.section('R03.6'):
+        # ------------------------------------------------------------------ R03.6
+        sets = nodes_where(g, lambda n: any(call_name(c) == 'set' and recv(c) == 'fsm_event_data'
+                                            for c in node_calls(n)))
+        rebinds = nodes_where(g, lambda n: n.kind == 'stmt' and isinstance(n.ast, ast.Assign) and
+                              any('data' == x.id for t in n.ast.targets for x in walk_shallow(t)
+                                  if isinstance(x, ast.Name)))
+        cbs = nodes_where(g, lambda n: any(call_name(c) == '_run_cb' for c in node_calls(n)))
 
-    def ev6(n):
-        ev = []
-        if n in rebinds:
-            ev.append('Rebind')
-        if n in sets:
-            ev.append('Set')
-        if n in cbs:
-            ev.append('CB')
-        return ev
-    ok, wit, st = check_language(g, "Set CB* ( Rebind Set CB* )*", ev6, [g.exit])
-    ck.product_states += st['product_states']
-    ck.ob(R6, f"{CTX} :: set before callbacks, re-set after re-binding", ok,
-          "every callback runs with fsm_event_data set for the current event" if ok else
-          f"a path runs the steps {' '.join(wit[1])}: a cond/enter/exit callback reads the data "
-          f"of an earlier event through fsm_event_data", ctx, ctx.node,
-          witness=path_witness(g, wit[0]) if wit else None)
-    okro = bool(sets)
-    for s in sets:
-        c = [c for c in node_calls(s, 'set') if recv(c) == 'fsm_event_data'][0]
-        arg = c.args[0] if c.args else None
-        exprs = [arg]
-        if isinstance(arg, ast.Name):
-            rd = ck.rdefs(CTX, 'M0')
-            exprs = [v for v in rd.value_exprs(s, arg.id)]
-        for e in exprs:
-            if isinstance(e, str):
-                okro = False
-                continue
-            t = norm(e)
-            if t == 'data':
-                # allowed only where data is known not to be mutable
-                if isinstance(arg, ast.Name):
-                    dn = [d for d in ck.rdefs(CTX, 'M0').defs_at(s, arg.id)
-                          if d.ast is not None and any(x is e for x in walk_shallow(d.ast))]
-                else:
-                    dn = [s]
-                if not dn or not all(g.has_guard(d, 'isinstance(data, MutableMapping)', False) for d in dn):
+        def ev6(n):
+            ev = []
+            if n in rebinds:
+                ev.append('Rebind')
+            if n in sets:
+                ev.append('Set')
+            if n in cbs:
+                ev.append('CB')
+            return ev
+        ok, wit, st = check_language(g, "Set CB* ( Rebind Set CB* )*", ev6, [g.exit])
+        ck.product_states += st['product_states']
+        ck.ob(R6, f"{CTX} :: set before callbacks, re-set after re-binding", ok,
+              "every callback runs with fsm_event_data set for the current event" if ok else
+              f"a path runs the steps {' '.join(wit[1])}: a cond/enter/exit callback reads the data "
+              f"of an earlier event through fsm_event_data", ctx, ctx.node,
+              witness=path_witness(g, wit[0]) if wit else None)
+        okro = bool(sets)
+        for s in sets:
+            c = [c for c in node_calls(s, 'set') if recv(c) == 'fsm_event_data'][0]
+            arg = c.args[0] if c.args else None
+            exprs = [arg]
+            if isinstance(arg, ast.Name):
+                rd = ck.rdefs(CTX, 'M0')
+                exprs = [v for v in rd.value_exprs(s, arg.id)]
+            for e in exprs:
+                if isinstance(e, str):
                     okro = False
-            elif isinstance(e, ast.IfExp):
-                okro = okro and norm(e.test) == 'isinstance(data, MutableMapping)' and \
-                    norm(e.body) == 'types.MappingProxyType(data)' and norm(e.orelse) == 'data'
-            else:
-                okro = okro and t == 'types.MappingProxyType(data)'
-    ck.ob(R6, f"{CTX} :: read-only view of the current data", okro,
-          "the context variable holds a MappingProxyType of the current event's data (or the "
-          "data itself if it is not mutable)" if okro else
-          "fsm_event_data is not set to a read-only view of the current `data`", ctx,
-          sets[0].ast if sets else ctx.node)
-    evf = fsm.methods.get('_event')
-    ck.need(R6, evf is not None, "FSM._event not found")
-    rets = [x for x in own_nodes(evf.node) if isinstance(x, ast.Return)]
-    ok = len(rets) == 1 and norm(rets[0].value).replace(' ', '') == \
-        'contextvars.copy_context().run(self._ctx_event,etype,data)'
-    ck.ob(R6, evf.fid, ok, "each event is handled in a copy of the context (per-event data)"
-          if ok else "FSM._event does not run _ctx_event in a fresh context copy with the event's "
-          "type and data", evf, evf.node)
-    callers = sorted({f.fid for f in prog.pkg_funcs() for x in own_nodes(f.node)
-                      if isinstance(x, ast.Attribute) and x.attr == '_ctx_event'})
-    ck.ob(R6, "who uses _ctx_event", callers == [evf.fid],
-          f"_ctx_event is entered only through {callers}", evf, evf.node)
+                    continue
+                t = norm(e)
+                if t == 'data':
+                    # allowed only where data is known not to be mutable
+                    if isinstance(arg, ast.Name):
+                        dn = [d for d in ck.rdefs(CTX, 'M0').defs_at(s, arg.id)
+                              if d.ast is not None and any(x is e for x in walk_shallow(d.ast))]
+                    else:
+                        dn = [s]
+                    if not dn or not all(g.has_guard(d, 'isinstance(data, MutableMapping)', False) for d in dn):
+                        okro = False
+                elif isinstance(e, ast.IfExp):
+                    okro = okro and norm(e.test) == 'isinstance(data, MutableMapping)' and \
+                        norm(e.body) == 'types.MappingProxyType(data)' and norm(e.orelse) == 'data'
+                else:
+                    okro = okro and t == 'types.MappingProxyType(data)'
+        ck.ob(R6, f"{CTX} :: read-only view of the current data", okro,
+              "the context variable holds a MappingProxyType of the current event's data (or the "
+              "data itself if it is not mutable)" if okro else
+              "fsm_event_data is not set to a read-only view of the current `data`", ctx,
+              sets[0].ast if sets else ctx.node)
+        evf = fsm.methods.get('_event')
+        ck.need(R6, evf is not None, "FSM._event not found")
+        rets = [x for x in own_nodes(evf.node) if isinstance(x, ast.Return)]
+        ok = len(rets) == 1 and norm(rets[0].value).replace(' ', '') == \
+            'contextvars.copy_context().run(self._ctx_event,etype,data)'
+        ck.ob(R6, evf.fid, ok, "each event is handled in a copy of the context (per-event data)"
+              if ok else "FSM._event does not run _ctx_event in a fresh context copy with the event's "
+              "type and data", evf, evf.node)
+        callers = sorted({f.fid for f in prog.pkg_funcs() for x in own_nodes(f.node)
+                          if isinstance(x, ast.Attribute) and x.attr == '_ctx_event'})
+        ck.ob(R6, "who uses _ctx_event", callers == [evf.fid],
+              f"_ctx_event is entered only through {callers}", evf, evf.node)
 
 
 def _get_chain(a, b) -> bool:
